@@ -175,26 +175,36 @@ def _rename(term: str, h: dict) -> str:
 
 
 def hier_entry(h, mod, prefix):
-    """A FRESH entry point (own, empty registry) for the hierarchy materialised under prefix."""
+    """A FRESH entry point (own, empty registry) for the hierarchy materialised under prefix:
+    call(d, with_dialect) -> result; second component: the failure is wrapped by a holder field."""
     base = getattr(mod, f"{prefix}{h['idx']}")
     fl = h["flavour"]
+    kw = lambda wd: ({"dialect": mod.NoopDialect} if wd else {})   # noqa: E731
     if fl == "config-mixin":
-        return base.from_dict, False
+        return (lambda d, wd=False: base.from_dict(d, **kw(wd))), False
+    if fl == "config-msgpack":
+        import msgpack
+        return (lambda d, wd=False: base.from_msgpack(msgpack.packb(d), **kw(wd))), False
+    if fl == "config-orjson":
+        import json
+        return (lambda d, wd=False: base.from_json(json.dumps(d), **kw(wd))), False
     if fl == "config-codec":
-        return mod.BasicDecoder(base).decode, False
+        dec = mod.BasicDecoder(base).decode
+        return (lambda d, wd=False: dec(d)), False
     ann = typing.Annotated[base, mod.Discriminator(field=h["field"], include_subtypes=True)]
     if fl == "annotated-codec":
-        return mod.BasicDecoder(ann).decode, False
+        dec = mod.BasicDecoder(ann).decode
+        return (lambda d, wd=False: dec(d)), False
     holder = getattr(mod, f"{prefix}{h['idx']}Holder")
-    return (lambda d: holder.from_dict({"v": d})), True
+    return (lambda d, wd=False: holder.from_dict({"v": d})), True
 
 
-def unwrap_field(fn, d, wrapped):
+def unwrap_field(fn, d, wrapped, wd=False):
     """Outcome of the dispatch itself.  In the annotated-field flavour the holder turns every failure into
     InvalidFieldValue('v', d, Holder) (checked here); the dispatch's own exception is its __context__."""
     problems = []
     try:
-        r = fn(d)
+        r = fn(d, wd)
         exc = None
     except BaseException as e:  # noqa: BLE001
         if isinstance(e, (KeyboardInterrupt, SystemExit, MemoryError)):
@@ -217,6 +227,18 @@ def outcome_term(r, exc, key_order=None) -> str:
     return f"(Ok {enc_result(r)})"
 
 
+def fmt_safe(x):
+    """Inputs handed to a wire format must be representable in it (64-bit ints, str keys): stated restriction of the
+    format flavours; the same values are still used with the dict entry points."""
+    if type(x) is int and not -2 ** 63 <= x < 2 ** 63:
+        return 42
+    if isinstance(x, list):
+        return [fmt_safe(i) for i in x]
+    if isinstance(x, dict):
+        return {(k if isinstance(k, str) else str(k)): fmt_safe(v) for k, v in x.items()}
+    return x
+
+
 def hier_section(ctx, rng, n_hier: int):
     """Oracle + correspondence for the family: the chosen variant's own decoding fails (or succeeds) on the first
     call for a tag vs later calls, through Config discriminator (mixin, codec), Annotated discriminator (codec root,
@@ -226,18 +248,27 @@ def hier_section(ctx, rng, n_hier: int):
     for k in range(n_hier):
         h = G.gen_hierarchy(rng, k)
         src_real, src_twin = G.hier_source(h, "H"), G.hier_source(h, "T")
-        exec(compile(src_real + src_twin, f"<c05 hier {k}>", "exec"), pm.__dict__)
-        fn, wrapped = hier_entry(h, pm, "H")
+        try:
+            exec(compile(src_real + src_twin, f"<c05 hier {k}>", "exec"), pm.__dict__)
+            fn, wrapped = hier_entry(h, pm, "H")
+        except Exception as e:  # noqa: BLE001
+            build_failure(ctx, {"cls": f"H{k}", "source": src_real, "hier": h, "fields": [], "mixin": True, "forbid": False,
+                                "allow_nba": False, "discr": h["field"], "discr_keys": []}, e)
+            continue
         inputs = G.hier_inputs(rng, h)
+        if h["flavour"] in ("config-msgpack", "config-orjson"):
+            inputs = [fmt_safe(d) for d in inputs]
         walk = G.hier_walk(h)
         ctx.hist("hier_flavour", h["flavour"])
         vterms_tables = {i: [] for i in walk}
         observed = []
         schema = {"cls": f"H{h['idx']}", "source": src_real, "hier": h, "fields": [], "mixin": True, "forbid": False,
                   "allow_nba": False, "discr": h["field"], "discr_keys": []}
+        flags = [bool(h.get("dialect_support")) and rng.random() < 0.6 for _ in inputs]
+        by_format = h["flavour"] in ("config-msgpack", "config-orjson")
         for n, d in enumerate(inputs):
             before = copy.deepcopy(d)
-            r, exc, problems = unwrap_field(fn, d, wrapped)
+            r, exc, problems = unwrap_field(fn, d, wrapped, flags[n])
             key_order = list(d.keys()) if isinstance(d, dict) else None
             obs_term = outcome_term(r, exc, key_order)
             observed.append(obs_term)
@@ -282,12 +313,13 @@ def hier_section(ctx, rng, n_hier: int):
                             type(exc).__name__ == "InvalidFieldValue" and ok:
                         # the offending input OBJECT is reported (twin ran on a copy)
                         m = getattr(exc, "field_name", None)
-                        if isinstance(d, dict) and m in d and exc.field_value is not d[m]:
+                        if isinstance(d, dict) and m in d and exc.field_value is not d[m] and not by_format:
                             ok = False
                             exp_txt += " with field_value being the input object"
             fails = list(problems)
             if not ok:
-                fails.append(f"call #{n + 1} on a fresh hierarchy ({h['flavour']}, {G.pyexpr(d)[:120]}): observed {obs}, "
+                fails.append(f"call #{n + 1} on a fresh hierarchy ({h['flavour']}{', dialect=NoopDialect' if flags[n] else ''}, "
+                             f"{G.pyexpr(d)[:120]}): observed {obs}, "
                              f"expected {exp_txt}")
             if not O.deep_same(before, d):
                 fails.append(f"input object was modified: {before!r} -> {d!r}"[:300])
@@ -295,7 +327,8 @@ def hier_section(ctx, rng, n_hier: int):
             for what in fails:
                 ctx.fail(f"H{h['idx']}: {what}"[:500],
                          {"entry": "hier:" + h["flavour"], "schema": schema, "prelude": "harness.props.c05_gen.PRELUDE",
-                          "input_expr": repr(inputs[:n + 1]), "observed": obs, "expected": exp_txt},
+                          "input_expr": repr([[x, f] for x, f in zip(inputs[:n + 1], flags)]), "observed": obs,
+                          "expected": exp_txt},
                          {"kind": kind, "entry": h["flavour"], "first_call": n == 0})
             # -- model tables: every variant's own decoder on this input (twin classes)
             for i in walk:
@@ -564,6 +597,16 @@ def shape_problems(src: str, field_names: list[str], ident_names: set[str], forb
 
 # ---------------------------------------------------------------------------
 
+def build_failure(ctx, schema, e):
+    """Defining the class / compiling its from_dict raised: every deserialization of that class fails with an
+    exception outside the documented set."""
+    ctx.count(("build-failed", type(e).__name__))
+    ctx.fail(f"defining {schema['cls']} / generating its from_dict raised {type(e).__name__}: {O.str_safe(e)[:200]}",
+             {"entry": "build", "schema": schema, "prelude": "harness.props.c05_gen.PRELUDE", "input_expr": "{}",
+              "observed": f"{type(e).__name__}: {O.str_safe(e)[:200]}", "expected": "a class with a working from_dict"},
+             {"kind": "class-build-failed", "exception": type(e).__name__})
+
+
 def run_corr(ctx, name, cases, ok_fun, case_type, labels):
     if not cases:
         return
@@ -642,13 +685,36 @@ def run(ctx: vlib.Ctx):
     shape_detail = []
     try:
         schemas = []
-        with Recorder() as rec:
+        try:
             G.prelude_module()
+        except Exception as e:  # noqa: BLE001 - the fixed classes (field-less bases, hierarchies, nested classes) do not build
+            first = "P_first"
+            for blk in G.PRELUDE.split("@dataclass\n")[1:]:
+                # the first class of the prelude that cannot be defined, alone on top of the imports
+                src = "@dataclass\n" + blk
+                try:
+                    exec(compile(G.PRELUDE.split("@dataclass\n")[0].split("class D2")[0] + src, "<c05 prelude part>", "exec"), {})
+                except NameError:
+                    continue
+                except Exception as e2:  # noqa: BLE001
+                    build_failure(ctx, {"cls": src.split("class ")[1].split("(")[0].split(":")[0], "source": src, "fields": [],
+                                        "mixin": True, "forbid": False, "allow_nba": False, "discr": None, "discr_keys": [],
+                                        "standalone": True}, e2)
+                    break
+            else:
+                build_failure(ctx, {"cls": "prelude", "source": G.PRELUDE, "fields": [], "mixin": True, "forbid": False,
+                                    "allow_nba": False, "discr": None, "discr_keys": [], "standalone": True}, e)
+            return
+        with Recorder() as rec:
             for i in range(n_schemas):
                 s = G.gen_schema(rng, i)
                 before = len(rec.programs)
-                mod = G.build_module(s)
-                ents = entries(s, mod)       # forces compilation of both entry points
+                try:
+                    mod = G.build_module(s)
+                    ents = entries(s, mod)       # forces compilation of both entry points
+                except Exception as e:  # noqa: BLE001 - a class whose from_dict cannot even be generated
+                    build_failure(ctx, s, e)
+                    continue
                 progs = rec.programs[before:]
                 schemas.append((s, mod, ents))
                 # structural tie on every captured from_dict program of this class
@@ -710,7 +776,12 @@ def run(ctx: vlib.Ctx):
 
         # ---- known-finding probes
         for s, d_desc in PROBES:
-            mod = G.build_module(s)
+            try:
+                mod = G.build_module(s)
+                entries(s, mod)
+            except Exception as e:  # noqa: BLE001
+                build_failure(ctx, s, e)
+                continue
             ref = O.Ref(mod)
             metas = O.field_meta(s, mod)
             for entry, fn in entries(s, mod):
@@ -795,6 +866,24 @@ def _is_root_program(p: str, s: dict) -> bool:
 
 def replay(rep: dict) -> int:
     schema = rep["schema"]
+    if rep.get("entry") == "build":
+        try:
+            if schema.get("standalone"):
+                exec(compile(G.PRELUDE.split("@dataclass\n")[0].split("class D2")[0] + schema["source"], "<c05 replay>", "exec"), {})
+            elif "hier" in schema:
+                pm = G.prelude_module()
+                exec(compile(schema["source"], "<c05 replay build>", "exec"), pm.__dict__)
+                hier_entry(schema["hier"], pm, "H")
+            else:
+                entries(schema, G.build_module(schema, fresh_prelude=True))
+            print("class builds fine: not reproduced")
+            return 0
+        except Exception as e:  # noqa: BLE001
+            print(f"building {schema['cls']} raised {type(e).__name__}: {e}")
+            print("REPRODUCED")
+            return 1
+        finally:
+            G.cleanup_modules()
     if rep.get("entry", "").startswith("hier:"):
         try:
             h = schema["hier"]
@@ -803,8 +892,8 @@ def replay(rep: dict) -> int:
             fn, wrapped = hier_entry(h, pm, "H")
             history = eval(rep["input_expr"])
             obs = ""
-            for d in history:
-                r, exc, problems = unwrap_field(fn, d, wrapped)
+            for d, wd in history:
+                r, exc, problems = unwrap_field(fn, d, wrapped, wd)
                 obs = f"{type(exc).__name__}({O._attrs(exc)})" if exc is not None else f"returned {r!r}"[:200]
                 print(f"  {h['flavour']} <- {d!r}: {obs}")
             same = obs == rep.get("observed")
